@@ -26,6 +26,7 @@ import json
 import os
 import re
 import shutil
+import signal
 import subprocess
 import sys
 import threading
@@ -656,6 +657,7 @@ def make_histories(ctx: Ctx, nhist: int, steps: int) -> list[list[dict]]:
 
     cases = [c for c in corpus.load(REPO) if not c.flags and not shadows(c)]
     plain = [c for c in cases if len(c.main) < 4000]
+    single = [c for c in plain if not c.files and not re.search(r"^\s*(from|import)\s+(\.|m\b|a\b|b\b|lib\b|mod\b|pkg\b|foo\b|bar\b)", c.main, flags=re.M)]
     hists = []
     for _ in range(nhist):
         hist: list[dict] = []
@@ -663,7 +665,14 @@ def make_histories(ctx: Ctx, nhist: int, steps: int) -> list[list[dict]]:
         for s in range(steps):
             probe = (s % 8 == 7) or s == steps - 1
             r = rng.random()
-            if probe or r < 0.75:
+            if probe:
+                # the later request that must be answered like a fresh run: a single-file program, every other file
+                # gone (multi-module edit equivalence is C03's subject)
+                c = rng.choice(single)
+                files = {"main.py": c.main}
+                kinds = []
+                origin = c.name
+            elif r < 0.75:
                 c = rng.choice(plain)
                 files = dict(c.files)
                 files["main.py"] = c.main
@@ -688,7 +697,7 @@ def make_histories(ctx: Ctx, nhist: int, steps: int) -> list[list[dict]]:
                 if rng.random() < 0.08:
                     files["main.py"], lab = gen.garble(files["main.py"], rng)
                     kinds.append("malformed:" + lab)
-            delete = sorted(present - set(files)) if rng.random() < 0.7 or probe else []
+            delete = sorted(present - set(files)) if (rng.random() < 0.7 or probe) else []
             present = (present - set(delete)) | set(files)
             hist.append({"write": files, "delete": delete, "probe": probe, "origin": origin, "kinds": kinds,
                          "present": sorted(present)})
@@ -747,6 +756,9 @@ def run_history(ctx: Ctx, runner: Runner, hid: int, hist: list[dict], flags: lis
                 if last and "start" in last and ((used is not None and used - last.get("cpu", 0.0) > step_limit)
                                                  or time.time() - last["t"] > 12 * step_limit):
                     hung_at = last["start"]
+                    with contextlib.suppress(OSError):
+                        p.send_signal(signal.SIGUSR1)      # faulthandler dumps the stack to stderr
+                    time.sleep(1.0)
                     p.kill()
                     p.wait()
                     break
@@ -768,7 +780,9 @@ def run_history(ctx: Ctx, runner: Runner, hid: int, hist: list[dict], flags: lis
         if failed >= len(hist):
             break
         records[failed] = {"done": failed - start, "resp": None, "exc": None, "trace": {},
-                           "hang": hung_at is not None, "worker_died": hung_at is None, "stderr": err[-1500:]}
+                           "hang": hung_at is not None, "worker_died": hung_at is None,
+                           "stderr": (err[err.find("most recent call first"):][:2500] if "most recent call first" in err
+                                      else err[-1500:])}
         start = failed + 1
     shutil.rmtree(d, ignore_errors=True)
     return records
@@ -820,7 +834,8 @@ def daemon_search(ctx: Ctx, runner: Runner) -> None:
             v = vmap.get((h, i), "accepted")
             obs = None
             if r.get("hang"):
-                obs = {"class": "hang", "mode": "daemon"}
+                hf, hfn = innermost_from_dump(r.get("stderr") or "")
+                obs = {"class": "hang", "mode": "daemon", "file": hf, "frame": hfn}
             elif r.get("worker_died"):
                 obs = {"class": "daemon-worker-died", "mode": "daemon", "stderr": None}
             elif r.get("exc"):
@@ -1023,6 +1038,10 @@ WITNESSES = [
     ("defer-final", {"main.py": "from typing import List\nclass N1(N1, N0): pass\nN0 = List[N1]\n"}, [], "batch"),
     ("semanal-cap", {"main.py": "from typing import NamedTuple\nclass NT(NamedTuple):\n    def get_other(self) -> Other: pass\n"
                                 "class C(D): pass\nclass D(C): pass\n"}, [], "batch"),
+    ("semanal-cap-typeddict", {"main.py": "from typing import Type\nfrom typing_extensions import TypedDict\n"
+                                          "class N6(TypedDict):\n    b: Type[N6]\n"}, [], "batch"),
+    ("concatenate-params", {"main.py": "from typing_extensions import Concatenate\n"
+                                       "def c(t: tuple[Concatenate[int, ...]]) -> None:\n    bool_f: Field[bool]\n"}, [], "batch"),
     ("unpack-undefined", {"main.py": "from collections.abc import Callable\nfrom typing import Unpack\n"
                                      "type F = Callable[[Unpack[Undefined], int], int]\n"
                                      "def ff(a: float, b: int, c: int) -> int:\n    return 2\nbis: F = ff\nbis(1.0, 2, 3)\n"}, [], "batch"),
